@@ -212,6 +212,7 @@ type ConnTap struct {
 	ResetTokens  [2]map[uint64][]byte // seq -> stateless reset token issued by side d (server seq 0: transport parameter)
 	LastDCID     [2][]byte            // DCID of the last 1-RTT packet sent by side d
 	RetiredSeqs  [2]map[uint64]bool   // seqs (of the peer's CIDs) retired by side d
+	forged       [2]uint64            // packets forged so far on behalf of side d (ForgeShort)
 	RetirePrior  [2]uint64
 	Closes       [2][]Frame
 	Counts       map[string]int64
